@@ -401,6 +401,10 @@ func (f *Finder) FindDependencies(fsys iofs.FS, subPath string, deps *sourcebund
 	if subPath != "" {
 		name = path.Join(subPath, name)
 	}
+	if fi, serr := iofs.Stat(fsys, subPath); subPath != "" && serr == nil && fi.Mode().IsRegular() {
+		// the artifact is a single file: it declares its dependencies itself
+		name = subPath
+	}
 	raw, err := iofs.ReadFile(fsys, name)
 	if err != nil {
 		return nil // nothing declared here (or the location does not exist)
